@@ -1136,6 +1136,27 @@ Proof.
   - inversion H; subst. simpl. repeat split; auto; apply G.
 Qed.
 
+(* ---- Record alone (SaveRaftState before onSnapshotSaved) ---- *)
+Lemma cmd_record : forall s i t tr oc, J s ->
+  (if has_file (DFinal i) FFlag (st_fs s) then fin (exec s [ORecord i]) else (s, [], Skipped)) = (t, tr, oc) ->
+  allowed_run s tr /\ t = run s tr /\ J t.
+Proof.
+  intros s i t tr oc (G & HS & HG) H. destruct (has_file (DFinal i) FFlag (st_fs s)) eqn:HF.
+  - destruct s as [l r]. simpl in *. inversion H; subst; clear H.
+    apply has_file_in in HF. destruct HF as [o [Ho [V FH]]].
+    unfold DSynced in HS. simpl in HS. rewrite Forall_forall in HS. destruct (HS o Ho) as [SD _].
+    assert (NZ : i <> 0).
+    { destruct G as [_ GZ]. unfold NoZero in GZ. simpl in GZ. rewrite Forall_forall in GZ. destruct (GZ o Ho) as [Z _].
+      intro X. subst i. contradiction. }
+    assert (A : allowed_run (mkS l r) [ORecord i]).
+    { simpl. repeat split; auto. rewrite Exists_exists. exists o. repeat split; auto. congruence. }
+    split; auto. split; [reflexivity|]. split; [|split].
+    + change (mkS l (N.max r i)) with (run (mkS l r) [ORecord i]). apply run_good; auto.
+    + unfold DSynced. simpl. rewrite Forall_forall. exact HS.
+    + exact HG.
+  - inversion H; subst. simpl. repeat split; auto; apply G.
+Qed.
+
 (* ---- Restart / Crash ---- *)
 Lemma cmd_restart : forall ord s t tr oc, ord_ok ord -> J s ->
   fin (process_orphans ord s) = (t, tr, oc) -> allowed_run s tr /\ t = run s tr /\ J t.
@@ -2027,12 +2048,13 @@ Proof.
   intros ord s c t tr oc HO HJ H.
   assert (TRIV : forall oc', (s, @nil op, oc') = (t, tr, oc) -> allowed_run s tr /\ t = run s tr /\ J t).
   { intros oc' X. inversion X; subst. simpl. auto. }
-  destruct c as [i n | i | i n | i n m | i | i | i | | ]; cbn [do_cmd] in H.
+  destruct c as [i n | i | i n | i n m | i | i | i | i | | ]; cbn [do_cmd] in H.
   - destruct (i =? 0) eqn:E; [eapply TRIV; eauto|]. eapply cmd_save; eauto.
   - destruct (i =? 0) eqn:E; [eapply TRIV; eauto|]. apply N.eqb_neq in E. eapply cmd_commit; eauto.
   - destruct (i =? 0) eqn:E; [eapply TRIV; eauto|]. apply N.eqb_neq in E. eapply cmd_recv; eauto.
   - destruct (i =? 0) eqn:E; [eapply TRIV; eauto|]. apply N.eqb_neq in E. eapply cmd_recvx; eauto.
   - eapply cmd_apply; eauto.
+  - eapply cmd_record; eauto.
   - eapply cmd_shrink; eauto.
   - eapply cmd_compact; eauto.
   - eapply cmd_restart; eauto.
